@@ -36,7 +36,7 @@ type C18Case struct {
 	Yield      bool      `json:"yield"` // runtime.Gosched between operations
 }
 
-var c18Kinds = []string{"binary-writer+ssts", "binary-writer+fixed-lst", "text-writer+ssts", "reader+catalog", "marshal", "unmarshal", "adjust+use", "catalog-lookups", "table-lookups", "decimal/timestamp", "builder", "copy-reader-to-writer", "unmarshal-wrapper"}
+var c18Kinds = []string{"binary-writer+ssts", "binary-writer+fixed-lst", "text-writer+ssts", "reader+catalog", "marshal", "unmarshal", "adjust+use", "catalog-lookups", "table-lookups", "decimal/timestamp", "builder", "copy-reader-to-writer", "unmarshal-wrapper", "built-table+builder-goes-on", "annotations-from-shared-list"}
 
 // c18Rec is the Go type shared by every Marshal / Unmarshal call.
 type c18Rec struct {
@@ -71,6 +71,14 @@ type c18Shared struct {
 	dynType reflect.Type
 	// wrapType is a per-workload annotation wrapper type ({V int; Ann []SymbolToken `ion:",annotations"`}).
 	wrapType reflect.Type
+	// bld keeps being used (one goroutine at a time: bldMu) after built was built
+	// from it; built is shared like any other table
+	bld   ion.SymbolTableBuilder
+	bldMu sync.Mutex
+	built ion.SymbolTable
+	// common is a token list with spare capacity that workloads pass prefixes of
+	// to Writer.Annotations
+	common []ion.SymbolToken
 }
 
 var c18Nonce int64
@@ -139,6 +147,14 @@ func c18Build(nonce int64) *c18Shared {
 	}
 	s.cat = ion.NewCatalog(append([]ion.SharedSymbolTable{ion.NewSharedSymbolTable("t2", 1, []string{"x"})}, s.ssts...)...)
 	s.lst = ion.NewLocalSymbolTable(s.ssts, []string{"loc1", "loc2", "f", "g", "s"})
+	s.bld = ion.NewSymbolTableBuilder(s.ssts[0])
+	s.bld.Add("early1")
+	s.bld.Add("early2")
+	s.built = s.bld.Build()
+	s.common = make([]ion.SymbolToken, 3, 8)
+	for i, t := range []string{"alpha", "beta", "gamma"} {
+		s.common[i] = ion.NewSymbolTokenFromString(t)
+	}
 	if nonce != 0 {
 		in := c18Inputs
 		s.vals, s.docs, s.recs, s.recDocs = in.vals, in.docs, in.recs, in.recDocs
@@ -282,6 +298,36 @@ func c18Do(s *c18Shared, op C18Op) string {
 		t := b.Build()
 		i3, ok := t.FindByName("zz")
 		return fmt.Sprintf("%d %v %d %v %d %d %v", i1, n1, i2, n2, t.MaxID(), i3, ok)
+	case 13:
+		// the builder a shared table came from keeps growing (never from two
+		// goroutines at once); the table must stay what it was
+		s.bldMu.Lock()
+		s.bld.Add(fmt.Sprint("late", a%7))
+		s.bldMu.Unlock()
+		id1, ok1 := s.built.FindByName("early2")
+		id2, ok2 := s.built.FindByName(fmt.Sprint("late", a%7))
+		id3, ok3 := s.built.FindByName(fmt.Sprint("late", (a+3)%7))
+		var buf bytes.Buffer
+		w := ion.NewBinaryWriterLST(&buf, s.built)
+		e1 := w.WriteSymbolFromString("early1")
+		e2 := w.WriteSymbolFromString(fmt.Sprint("late", (a+1)%7))
+		e3 := w.Finish()
+		return fmt.Sprintf("%d %v %d %v %d %v %d %x %v %v %v", id1, ok1, id2, ok2, id3, ok3, s.built.MaxID(), buf.Bytes(), e1 != nil, e2 != nil, e3 != nil)
+	case 14:
+		// a prefix of the shared token list goes to Annotations, one more
+		// annotation follows on the same value
+		var buf bytes.Buffer
+		var w ion.Writer
+		if a%4 < 2 {
+			w = ion.NewTextWriter(&buf)
+		} else {
+			w = ion.NewBinaryWriter(&buf)
+		}
+		e1 := w.Annotations(s.common[:2+a%2]...)
+		e2 := w.Annotation(ion.NewSymbolTokenFromString(fmt.Sprint("w", a)))
+		e3 := w.WriteInt(int64(a))
+		e4 := w.Finish()
+		return fmt.Sprintf("%x %v %v %v %v", buf.Bytes(), e1, e2, e3, e4)
 	case 12:
 		// decode into the per-workload annotation wrapper: documents it accepts and
 		// documents it refuses; a refusal in one goroutine must not change what the
@@ -455,7 +501,7 @@ var _ = strings.Contains
 
 func init() {
 	Describe("C18",
-		"cases: a workload of 2-32 goroutines, each running its own script of 1-8 operations over private Readers / Writers / Encoders / Decoders but shared objects: three SharedSymbolTables (and copies made by Adjust during the run), a Catalog, V1SystemSymbolTable, one fixed local symbol table handed to many NewBinaryWriterLST / MarshalBinaryLST calls, one Go struct type (embedded struct, tags, map, pointer, interface) for all Marshal / Unmarshal calls, a per-workload struct type and a per-workload annotation-wrapper type (decoded from documents it accepts and documents it refuses), a document with two lobs above 64 KiB whose returned slices are re-checked after further reading, and the package-level tables; operations: binary writer with shared tables, binary writer with the fixed table, text / pretty writer, reader with the catalog, Marshal (text, binary, fixed table), Unmarshal, Adjust-then-use, catalog look-ups and NewCatalog, table look-ups, Decimal / Timestamp parsing and arithmetic, SymbolTableBuilder, reader-to-writer copy; GOMAXPROCS in {2, 4, 16}, optional Gosched between operations; enumerated: every pair of operation kinds, two goroutines each. Non-trivial: at least two goroutines use the same kind of shared object, with at least one marshal and one reader-with-catalog operation. Distinct by digest(scripts).",
+		"cases: a workload of 2-32 goroutines, each running its own script of 1-8 operations over private Readers / Writers / Encoders / Decoders but shared objects: three SharedSymbolTables (and copies made by Adjust during the run), a Catalog, V1SystemSymbolTable, one fixed local symbol table handed to many NewBinaryWriterLST / MarshalBinaryLST calls, one Go struct type (embedded struct, tags, map, pointer, interface) for all Marshal / Unmarshal calls, a per-workload struct type and a per-workload annotation-wrapper type (decoded from documents it accepts and documents it refuses), a document with two lobs above 64 KiB whose returned slices are re-checked after further reading, a table built by a SymbolTableBuilder that keeps growing afterwards (one goroutine at a time), a token list with spare capacity whose prefixes go to Writer.Annotations, and the package-level tables; operations: binary writer with shared tables, binary writer with the fixed table, text / pretty writer, reader with the catalog, Marshal (text, binary, fixed table), Unmarshal, Adjust-then-use, catalog look-ups and NewCatalog, table look-ups, Decimal / Timestamp parsing and arithmetic, SymbolTableBuilder, reader-to-writer copy; GOMAXPROCS in {2, 4, 16}, optional Gosched between operations; enumerated: every pair of operation kinds, two goroutines each. Non-trivial: at least two goroutines use the same kind of shared object, with at least one marshal and one reader-with-catalog operation. Distinct by digest(scripts).",
 		"oracle: the test binary is built with -race and run with GORACE=halt_on_error=1: any data race report ends the process and is a violation attributed to the workload in flight; every operation's result (bytes, observed values, errors) when run concurrently, on a fresh set of shared objects, must equal its result when its script is run alone on fresh objects and types",
 		"schedules are sampled, not enumerated: the race detector reports two conflicting unsynchronised accesses whenever both occur in a run, whatever their timing, but a wrongly-ordered yet synchronised interleaving, or a race on a path no script executes, is not found",
 	)
